@@ -255,6 +255,15 @@ theorem echo_admitted {L : Layout} (hwf : WellFormed L = true) (c : Ctx) (d : Dg
   obtain ⟨v6, v9, v7, v8⟩ := echo_values (L := L) c r h6 h9 h7 h8 hpid hport hn0 hw0
   exact ⟨ha, r, hu, hk, h4, h5, v6, v9, by rw [v7, utf8_roundtrip], by rw [v8, utf8_roundtrip]⟩
 
+/-- the trailing-newline quirk of `is_valid_object_name` (`$` also matches before a final newline) is harmless
+for discovery: such a context is admitted, its name is matched and echoed like any other text — `ab\n` is not
+matched by `ab`, it is by `ab?`, `ab\n`, `ab*` -/
+example : admitContext genLayout ['a', 'b', '\n'] ['g'] = true ∧ admitContext genLayout ['a', '\n', 'b'] ['g'] = false ∧
+    admitContext genLayout ['\n'] ['g'] = false ∧
+    globMatch ['a', 'b'] ['a', 'b', '\n'] = false ∧ globMatch ['a', 'b', '?'] ['a', 'b', '\n'] = true ∧
+    globMatch ['a', 'b', '\n'] ['a', 'b', '\n'] = true ∧ globMatch ['a', 'b', '*'] ['a', 'b', '\n'] = true ∧
+    utf8Decode (cstr ((cwrite 64 (utf8Encode ['a', 'b', '\n'])).getD [])) = some ['a', 'b', '\n'] := by decide +kernel
+
 /-! ## junk -/
 
 /-- **any datagram that is not a well-formed request is ignored**: nothing is sent, the responder's
@@ -525,6 +534,58 @@ theorem client_filters {L : Layout} (hwf : WellFormed L = true) (self : List Cha
 theorem client_never_self {L : Layout} (hwf : WellFormed L = true) (self : List Char) (rid : Nat)
     (ds : List (Nat × Bytes)) (out : List Peer) (h : discover L self rid ds = .ok out) : ∀ e ∈ out, e.name ≠ self :=
   fun e he => ((client_filters hwf self rid ds out h e).1 he).1
+
+/-! ## the collection window of `ping_qmi_contexts` -/
+
+/-- the loop with its clock is the plain filter applied to what arrived before the deadline -/
+theorem discoverTimed_eq (L : Layout) (self : List Char) (rid t0 timeout : Nat) (turns : List Turn) :
+    discoverTimed L self rid t0 timeout turns = discover L self rid (received (t0 + timeout) turns) := by
+  unfold discoverTimed discover
+  rw [pingLoop_eq_ping]
+
+/-- **every matching answer that arrives within the window is reported, and nothing else**: the loop yields exactly
+the well-formed responses to its own request id among the datagrams of the turns before the deadline -/
+theorem ping_window {L : Layout} (hwf : WellFormed L = true) (rid dl : Nat) (turns : List Turn) (a : Nat) (p : Packet) :
+    (a, p) ∈ pingLoop L rid dl turns ↔
+      ∃ bs, (a, bs) ∈ received dl turns ∧ unpack L bs = .ok p ∧ p.kind = .infoResp ∧ leNat (p.fld 4) = rid := by
+  rw [pingLoop_eq_ping]
+  exact ping_own_request_only hwf rid (received dl turns) a p
+
+/-- **the call ends at the deadline**: once a clock reading has reached it, whatever is or becomes ready on the
+socket — any flood — is not looked at -/
+theorem ping_stops_at_deadline (L : Layout) (rid dl : Nat) (pre post : List Turn) (u : Turn) (h : dl ≤ u.t) :
+    pingLoop L rid dl (pre ++ u :: post) = pingLoop L rid dl pre :=
+  pingLoop_stops L rid dl pre post u h
+
+/-- **… and the deadline is reached under any flood**: if the clock advances by at least one tick per turn
+(trusted: `time.monotonic` moves while a datagram is received and unpacked), at most `timeout` turns are executed,
+i.e. at most `timeout` datagrams are read, junk or not -/
+theorem ping_turns_bounded (t0 timeout : Nat) (turns : List Turn)
+    (hclock : (turns.map (·.t)).Pairwise (· < ·)) (hstart : ∀ u ∈ turns, t0 ≤ u.t) :
+    (turns.takeWhile (fun u => decide (u.t < t0 + timeout))).length ≤ timeout ∧
+    (received (t0 + timeout) turns).length ≤ timeout := by
+  have h := window_bounded timeout t0 (turns.map (·.t)) hclock
+    (by intro x hx; obtain ⟨u, hu, rfl⟩ := List.mem_map.1 hx; exact hstart u hu)
+  rw [List.takeWhile_map, List.length_map] at h
+  refine ⟨h, Nat.le_trans ?_ h⟩
+  unfold received
+  exact List.length_filterMap_le _ _
+
+/-- junk inside the window changes nothing: a turn that delivers a datagram which is not an answer to this call
+is as good as a turn that delivers nothing -/
+theorem junk_in_window_ignored (L : Layout) (self : List Char) (rid t0 timeout : Nat) (pre post : List Turn) (t : Nat)
+    (d : Nat × Bytes) (h : pingAccept L rid d = none) :
+    discoverTimed L self rid t0 timeout (pre ++ { t := t, ready := some d } :: post) =
+    discoverTimed L self rid t0 timeout (pre ++ { t := t, ready := none } :: post) := by
+  unfold discoverTimed
+  rw [pingLoop_junk_turn L rid _ pre post t d h]
+
+/-- non-vacuity: an answer inside the window is reported, the same answer at the deadline tick is not, a junk
+flood after the deadline is not read -/
+example : (discoverTimed genLayout ['m', 'e'] 77 1000 103
+      [{ t := 1000, ready := some (5, exReq) }, { t := 1050, ready := some (3, exResp 77) }, { t := 1102, ready := none },
+       { t := 1103, ready := some (4, exResp 77) }, { t := 1104, ready := some (6, exResp 77) }]).toOption =
+    some [{ name := exCtx.name, addr := 3, port := 40001 }] := by decide +kernel
 
 /-! ## end to end -/
 
